@@ -13,6 +13,7 @@ import (
 	"math"
 	"os"
 	"path/filepath"
+	"runtime"
 	"sync"
 	"sync/atomic"
 	"testing"
@@ -251,9 +252,14 @@ type cOut struct {
 	open bool // observe
 }
 
-var lclock, retentionPasses atomic.Int64
+var lclock, retentionPasses, statsPeeks, statsPeeksOverlapped atomic.Int64
 
 func concurrent(s *verifh.Sink, base string) {
+	// relaxed is set for the rounds that run beside a statistics peeker. The peeker legitimately pins a segment that is in use
+	// (CAS while the count is above zero) and may still hold that pin after the recorded holders released theirs; it is not part
+	// of the history, so in those rounds an idle-close that declines, and an acquire that still succeeds on a flagged segment,
+	// are both legal. What stays illegal: an idle-close that succeeds, or a refusal, while a recorded holder holds.
+	relaxed := false
 	model := porcupine.Model{
 		Partition: func(h []porcupine.Operation) [][]porcupine.Operation {
 			by := map[int][]porcupine.Operation{}
@@ -273,7 +279,7 @@ func concurrent(s *verifh.Sink, base string) {
 			i, o := in.(cIn), out.(cOut)
 			switch i.op {
 			case "acquire":
-				if m.flagged && m.ref == 0 {
+				if m.flagged && m.ref == 0 && !(relaxed && o.ok) {
 					return !o.ok, m
 				}
 				if !o.ok {
@@ -293,6 +299,9 @@ func concurrent(s *verifh.Sink, base string) {
 				return true, m
 			case "idle":
 				want := m.open && m.ref == 0 && !m.flagged
+				if relaxed && !o.ok {
+					return true, m
+				}
 				if o.ok != want {
 					return false, m
 				}
@@ -317,8 +326,11 @@ func concurrent(s *verifh.Sink, base string) {
 		},
 	}
 	rounds := verifh.Pick(60, 1500)
+	peekRounds := verifh.Pick(40, 600) // further rounds, run beside a statistics peeker (relaxed model, see above)
 	var overlapped, checked, illegal, unknown int64
-	for round := 0; round < rounds; round++ {
+	for round := 0; round < rounds+peekRounds; round++ {
+		withPeeker := round >= rounds && os.Getenv("VERIF_C14_NO_PEEKER") == ""
+		relaxed = withPeeker
 		r := verifh.Rand("c14conc", round)
 		clock := timestamp.NewMockClock()
 		at := time.Date(2024, 5, 10, 3, 0, 0, 0, time.UTC)
@@ -416,7 +428,49 @@ func concurrent(s *verifh.Sink, base string) {
 				}
 			}(g)
 		}
+		// a metrics/inspection pass running beside them: selectSegments without reopening, look at what came back the way the
+		// engines' collectors do (Tables(), a directory listing), then DecRef every returned segment. It holds nothing of its own
+		// in the model (net zero), so it is not part of the history; what it must not do is take away a reference of the others.
+		peekDone := make(chan struct{})
+		var peekWG sync.WaitGroup
+		if withPeeker {
+			peekWG.Add(1)
+			pseed := r.Int63()
+			go func() {
+				defer peekWG.Done()
+				pr := verifh.Rand(fmt.Sprint("c14peek", pseed), 0)
+				for {
+					select {
+					case <-peekDone:
+						return
+					default:
+					}
+					before := lclock.Load()
+					got, err := v.db.SelectSegments(timestamp.NewInclusiveTimeRange(at.Add(-time.Hour), at.Add(4*time.Hour)), false)
+					if err != nil {
+						liveness.CompareAndSwap(nil, "stats peek failed: "+err.Error())
+						return
+					}
+					for _, sg := range got {
+						sg.Tables()
+						for y := pr.Intn(4); y > 0; y-- {
+							runtime.Gosched()
+						}
+					}
+					for _, sg := range got {
+						sg.DecRef()
+					}
+					statsPeeks.Add(1)
+					if lclock.Load() != before {
+						statsPeeksOverlapped.Add(1)
+					}
+					runtime.Gosched()
+				}
+			}()
+		}
 		wg.Wait()
+		close(peekDone)
+		peekWG.Wait()
 		// overlap: some operation was called before another on the same segment returned
 		ov := false
 		for i := 0; i < len(hist) && !ov; i++ {
@@ -474,6 +528,8 @@ func concurrent(s *verifh.Sink, base string) {
 		os.RemoveAll(dir)
 	}
 	s.Count("c14.concurrent.retention_passes_interleaved", retentionPasses.Load())
+	s.Count("c14.concurrent.stats_peeks", statsPeeks.Load())
+	s.Count("c14.concurrent.stats_peeks_overlapping_other_ops", statsPeeksOverlapped.Load())
 	s.Count("c14.concurrent.histories_checked", checked)
 	s.Count("c14.concurrent.histories_with_overlapping_ops", overlapped)
 	s.Count("c14.concurrent.porcupine_unknown", unknown)
